@@ -88,6 +88,8 @@ def _get_log_file() -> Path:
 
 def setup_logging():
     """Configure logging to file. Fails silently if unable to write."""
+    # a failing write (full disk, ...) must not print a traceback on stderr
+    logging.raiseExceptions = False
     try:
         log_file = _get_log_file()
         log_file.parent.mkdir(parents=True, exist_ok=True)
